@@ -34,6 +34,9 @@ def make_est(k):
         return artlib.ART2A(rho=float(k["rho"]), alpha=float(k["alpha"]), beta=float(k["beta"]))
     if kind == "Hyper":
         return artlib.HypersphereART(rho=float(k["rho"]), alpha=float(k["alpha"]), beta=float(k["beta"]), r_hat=float(k["r_hat"]))
+    if kind.startswith("K:"):            # any of the eight modules with float hyper-parameters (implementation-side oracles only)
+        import kernfam
+        return kernfam.make(kind[2:], k["p"])
     raise ValueError(kind)
 
 
@@ -288,6 +291,48 @@ def gen_kernel_and_rows(rng, kind, nmax=15):
 
 def summary(k, ops):
     """JSON-able description of a case (also the replay)"""
-    return {"estimator": {kk: str(vv) for kk, vv in k.items()},
+    if str(k.get("kind", "")).startswith("K:"):
+        est = {"kind": k["kind"], "p": {kk: (np.asarray(vv).tolist() if isinstance(vv, np.ndarray) else vv) for kk, vv in k["p"].items()}}
+    else:
+        est = {kk: str(vv) for kk, vv in k.items()}
+    return {"estimator": est,
             "ops": [{"op": o["op"], "mode": o.get("mode"), "eps": str(o.get("eps")), "veto": o.get("veto"),
                      "X": [[str(v) for v in r] for r in o["X"]]} for o in ops]}
+
+
+def gen_any_kernel_and_rows(rng, nmax=14):
+    """any of the eight elementary modules, float data (duplicates frequent); for implementation-side oracles"""
+    import kernfam
+    kind = rng.choice(kernfam.KINDS)
+    d = rng.choice([1, 2, 3]) if kind in ("Bayes", "Quad") else rng.choice([1, 2, 3, 4])
+    p = kernfam.gen_params(rng, kind, d)
+    if kind == "Fuzzy" and p["rho"] == 0.0 and p["alpha"] == 0.0:
+        p["alpha"] = 1e-3
+    if kind in ("Hyper", "Ellip") and p["rho"] == 0.0 and p["alpha"] == 0.0:
+        p["alpha"] = 1e-3
+    if kind == "ART1" and p["rho"] == 0.0 and p["L"] == 1.0:
+        p["L"] = 2.0
+    X = kernfam.gen_data(rng, kind, rng.randrange(3, nmax), d)
+    return {"kind": "K:" + kind, "p": p, "rho": p["rho"]}, [[float(v) for v in r] for r in X]
+
+
+def gen_any_history(rng):
+    """like histfam.gen_history, for any module, float data"""
+    k, rows = gen_any_kernel_and_rows(rng)
+    mode = rng.choice(MODES)
+    eps = rng.choice([0.0, 1e-10, 1e-3, 0.05])
+    veto = gen_veto(rng) if rng.random() < 0.5 else None
+    t = lambda op, X: {"op": op, "X": X, "mode": mode, "eps": eps, "veto": veto}
+    shape = rng.choice(["fit", "pf", "fit+pf", "fit+fit"])
+    if shape == "fit":
+        ops = [t("fit", rows)]
+    elif shape == "pf":
+        ops = [t("partial_fit", b) for b in split_batches(rng, rows, rng.randrange(1, 4))]
+    elif shape == "fit+pf":
+        h = max(1, len(rows) // 2)
+        ops = [t("fit", rows[:h]), t("partial_fit", rows[h:] or rows[:1])]
+    else:
+        h = max(1, len(rows) // 2)
+        ops = [t("fit", rows[:h]), t("fit", list(reversed(rows)))]
+    ops.append({"op": "predict", "X": [list(rng.choice(rows)) for _ in range(rng.randrange(1, 5))]})
+    return k, ops
